@@ -3,10 +3,12 @@ import WacProofs.Lemmas.AggNAllTotal
 /-
   C09 — general theorems for the NESTED fragment (`nfragB cs = true`, decidable): every contributor
   is an instance requirement whose interface, and every interface nested in it to any depth, is
-  anonymous (no id), has no `uses`, and exports functions, values and instances of such
-  interfaces; collections are sane (no resources, every defined type unfolds) and separate.
+  anonymous (no id), has no `uses`, and exports functions, values, `type` exports of function /
+  value types, instances of such interfaces and `type` exports of such interfaces (`wrapK`);
+  collections are sane (no resources, every defined type unfolds) and separate.
   Requirement names are arbitrary.  Configuration: the repaired code (`Agg.empty`, in particular
-  `cfg.nestedMerge`: fix c7305c6 "nested instances are merged recursively on a copy").
+  `cfg.nestedMerge`: fix c7305c6 "nested instances are merged recursively on a copy", and
+  `cfg.typeMerge`: fix e9ab666, the same for `type` exports of interface type = finding 8).
 
   Proved: the invariant, `agg_upper_bound_nested`, `agg_greatest_nested`, `agg_perm_nested_partial`
   (when both orders succeed), `lower_redirected_nested`, `canonical_highest_nested`, and
@@ -321,6 +323,24 @@ theorem agg_perm_nested (cs cs' : List Req) (hp : cs.Perm cs') (hf : nfragB cs =
       exact ⟨X, hX, fun r' hr' => hall r' (hp.mem_iff.1 hr')⟩⟩
 
 example : [qA, qB, qD].Perm [qD, qB, qA] ∧ nfragB [qA, qB, qD] = true := ⟨by decide, by decide +kernel⟩
+
+/-- `i: instance { t: instance { a: func() } }` (an instance where `uA`/`uB` have a `type` export) -/
+def uC : Types :=
+  { uid := 3, funcs := [{}], interfaces := [{ exports := [(['a'], .func 0)] }, { exports := [(['t'], .instance 0)] }] }
+
+/-- **the requirements of finding 8 are inside the nested fragment**: `type` exports of interface
+type (`t: type instance { a }` and `t: type instance { a, b }`, `uA`/`uB` of C09General) are merged
+recursively like nested instances, so `agg_upper_bound_nested`, `agg_greatest_nested`,
+`fails_iff_incompatible_nested` and `agg_perm_nested` apply to the repaired branch (with the
+pinned configuration the upper bound fails: `C09General.type_export_upper_bound_counterexample`).
+A `type` export against an instance export of the same name is an error in both orders. -/
+example : nfragB [(['i'], uA, .instance 1), (['i'], uB, .instance 1)] = true ∧
+    (aggregateAll [(['i'], uA, .instance 1), (['i'], uB, .instance 1)] Agg.empty).toOption.isSome = true ∧
+    (aggregateAll [(['i'], uB, .instance 1), (['i'], uA, .instance 1)] Agg.empty).toOption.isSome = true ∧
+    nfragB [(['i'], uA, .instance 1), (['i'], uC, .instance 1)] = true ∧
+    (aggregateAll [(['i'], uA, .instance 1), (['i'], uC, .instance 1)] Agg.empty).toOption.isSome = false ∧
+    (aggregateAll [(['i'], uC, .instance 1), (['i'], uA, .instance 1)] Agg.empty).toOption.isSome = false := by
+  decide +kernel
 
 /-- **`merge_interface_nested_fails_iff`**: one `merge_interface` call on the nested fragment, with
 enough fuel, never panics, and fails exactly when the specification's merge of the two instance
